@@ -401,8 +401,8 @@ def run(prog, tier) -> Result:
                             {"MoneyConverter.__init__": {"="}, "MoneyConverter.update": {"*"}}, cg))
     n += len(check_ownership(res, "R11.8", writes, "_type_of_validity",
                              {"MoneyConverter.__init__": {"="}, "MoneyConverter.update": {"="}}, cg))
-    if n < 4:
-        raise AnalysisError(f"R11.8: {n} writes of the converter state found (4 confirmed)")
+    if n < 2:
+        raise AnalysisError(f"R11.8: {n} writes of the converter state found (at least 2 expected)")
 
     res.require("R11.1", 6)
     res.require("R11.3", 5)
